@@ -48,9 +48,9 @@ DefectNames == {"proposalNoReturn",   \* hs_prot.go: ServerListenProposal contin
 ASSUME Defects \subseteq DefectNames
 Has(d) == d \in Defects
 
-VARIABLES E, net, failBudget, userDone, approvedPending, cancelled, userClosed, faults, hb, sleeps, acc, viol, lastAct, hist
+VARIABLES E, net, failBudget, userDone, approvedPending, approvedAny, cancelled, userClosed, faults, hb, sleeps, acc, viol, lastAct, hist
 
-vars == <<E, net, failBudget, userDone, approvedPending, cancelled, userClosed, faults, hb, sleeps, acc, viol, lastAct, hist>>
+vars == <<E, net, failBudget, userDone, approvedPending, approvedAny, cancelled, userClosed, faults, hb, sleeps, acc, viol, lastAct, hist>>
 
 Peer(e) == CHOOSE p \in Endpoints : p # e
 
@@ -420,7 +420,7 @@ Act(a, e, m, id) == [a |-> a, e |-> e, m |-> m, id |-> id]
 Run(e) == /\ Alive(E[e]) /\ ~E[e].ran
           /\ Apply(e, Settle(Push([Clr[e] EXCEPT !.ran = TRUE], <<[k |-> "Hrun"]>>)), Act("Run", e, "", ""))
           /\ Spend(FALSE)
-          /\ UNCHANGED <<failBudget, userDone, approvedPending, cancelled, userClosed, faults>>
+          /\ UNCHANGED <<failBudget, userDone, approvedPending, approvedAny, cancelled, userClosed, faults>>
 
 \* single mode: the adversary delivers a message
 Inject(e, m0) ==
@@ -435,7 +435,7 @@ Inject(e, m0) ==
        IN  /\ coop \/ HostileOK
            /\ Apply(e, Settle(Push(r1, <<[k |-> "Hm", m |-> m]>>)), Act("Inject", e, MStr(m), MId(m)))
            /\ Spend(~coop)
-    /\ UNCHANGED <<failBudget, userDone, approvedPending, cancelled, userClosed, faults>>
+    /\ UNCHANGED <<failBudget, userDone, approvedPending, approvedAny, cancelled, userClosed, faults>>
 
 \* pair mode: deliver the head of e's queue; "eos" = the peer closed its transport -> ReportConnectionError
 Deliver(e) ==
@@ -449,7 +449,7 @@ Deliver(e) ==
            /\ net' = [net EXCEPT ![e] = Tail(@), ![Peer(e)] = @ \o r2.outbox]
            /\ lastAct' = Act("Deliver", e, IF m.t = "eos" THEN "eos" ELSE MStr(m), IF m.t = "eos" THEN "" ELSE MId(m))
     /\ Spend(FALSE)
-    /\ UNCHANGED <<failBudget, userDone, approvedPending, cancelled, userClosed, faults>>
+    /\ UNCHANGED <<failBudget, userDone, approvedPending, approvedAny, cancelled, userClosed, faults>>
 
 \* pair mode: a side that closed its transport puts an end-of-stream marker behind its frames
 EosSent(e) == \E i \in 1..Len(net[Peer(e)]) : net[Peer(e)][i].t = "eos"
@@ -458,7 +458,7 @@ PropagateClose(e) ==
     /\ net' = [net EXCEPT ![Peer(e)] = Append(@, [t |-> "eos"])]
     /\ E' = Clr /\ lastAct' = Act("PropagateClose", e, "", "")
     /\ Spend(FALSE)
-    /\ UNCHANGED <<failBudget, userDone, approvedPending, cancelled, userClosed, faults>>
+    /\ UNCHANGED <<failBudget, userDone, approvedPending, approvedAny, cancelled, userClosed, faults>>
 
 AnyPending == \E x \in Endpoints : E[x].pending # <<>>
 OtherEnabled == \/ \E x \in Endpoints : ~E[x].ran /\ Alive(E[x])
@@ -473,7 +473,7 @@ Tick == /\ Timed /\ ~OtherEnabled
         /\ E' = [x \in Endpoints |-> IF E[x].tRun THEN [Clr[x] EXCEPT !.tLeft = @ - 1] ELSE Clr[x]]
         /\ lastAct' = Act("Tick", "", "", "")
         /\ Spend(FALSE)
-        /\ UNCHANGED <<net, failBudget, userDone, approvedPending, cancelled, userClosed, faults>>
+        /\ UNCHANGED <<net, failBudget, userDone, approvedPending, approvedAny, cancelled, userClosed, faults>>
 
 \* Excluded corner (documented in DESIGN.md): with waiting no longer allowed, an expiring send-prolongation-request
 \* timer and no waiting value received so far, hs_hello.go arms the reply timer with time.Duration(66000) = 66
@@ -488,8 +488,8 @@ FireTimeout(e) ==
     /\ LET coop == Timed \/ E[e].st = "PendingListen"
        IN  /\ coop \/ HostileOK
            /\ Spend(~coop)
-    /\ Apply(e, Settle(Push([Clr[e] EXCEPT !.tRun = FALSE, !.fires = @ + 1], <<[k |-> "Ht"]>>)), Act("FireTimeout", e, "", ""))
-    /\ UNCHANGED <<failBudget, userDone, approvedPending, cancelled, userClosed, faults>>
+    /\ Apply(e, Settle(Push([Clr[e] EXCEPT !.tRun = FALSE, !.fires = IF @ < 3 THEN @ + 1 ELSE @], <<[k |-> "Ht"]>>)), Act("FireTimeout", e, "", ""))
+    /\ UNCHANGED <<failBudget, userDone, approvedPending, approvedAny, cancelled, userClosed, faults>>
 
 \* the user trusts the remote: RegisterRemoteSKI -> trusted := true; ApprovePendingHandshake
 Approve(e) ==
@@ -499,36 +499,39 @@ Approve(e) ==
            THEN /\ Apply(e, Settle(Push(Rep(StopT(r), "ReadyInit"), <<[k |-> "H"], [k |-> "Approve2"]>>)), Act("Approve", e, "", ""))
                 /\ approvedPending' = TRUE
            ELSE /\ Apply(e, r, Act("Approve", e, "", ""))
-                /\ UNCHANGED approvedPending
+                /\ approvedPending' = (approvedPending \/ r.st \in {"InitStart", "ServerWait"})   \* before the hello decision
+    /\ approvedAny' = TRUE
     /\ userDone' = TRUE /\ Spend(FALSE) /\ UNCHANGED <<failBudget, cancelled, userClosed, faults>>
 
 \* the user denies: CancelPairingWithSKI -> AbortPendingHandshake; trusted := false
 Cancel(e) ==
     /\ HostileOK /\ Alive(E[e]) /\ ~userDone /\ E[e].role = "server" /\ E[e].ran
+    /\ Pair => E[e].st \in {"PendingListen", "ReadyListen"}     \* pair: only the cancellation of a pairing in progress
     /\ LET r == [Clr[e] EXCEPT !.paired = FALSE]
        IN  IF r.st \in {"PendingListen", "ReadyListen"} /\ ~Guarded(r)
            THEN Apply(e, Settle(NextH(Rep(StopT(r), "Abort"))), Act("Cancel", e, "", ""))
            ELSE Apply(e, r, Act("Cancel", e, "", ""))
-    /\ userDone' = TRUE /\ cancelled' = TRUE /\ Spend(TRUE) /\ UNCHANGED <<failBudget, approvedPending, userClosed, faults>>
+    /\ userDone' = TRUE /\ cancelled' = (E[e].st \in {"PendingListen", "ReadyListen"} /\ ~Guarded(E[e]))
+    /\ Spend(TRUE) /\ UNCHANGED <<failBudget, approvedPending, approvedAny, userClosed, faults>>
 
 \* single mode: the websocket marks itself closed (read or write error) ...
 WsFail(e) ==
     /\ ~Pair /\ HostileOK /\ Alive(E[e]) /\ E[e].wsOpen /\ E[e].ran
     /\ Apply(e, [Clr[e] EXCEPT !.wsOpen = FALSE, !.errPending = TRUE], Act("WsFail", e, "", ""))
     /\ Spend(TRUE) /\ faults' = TRUE
-    /\ UNCHANGED <<failBudget, userDone, approvedPending, cancelled, userClosed>>
+    /\ UNCHANGED <<failBudget, userDone, approvedPending, approvedAny, cancelled, userClosed>>
 \* ... and then reports the error to the SHIP layer
 ConnError(e) ==
     /\ ~Pair /\ Alive(E[e]) /\ E[e].errPending
     /\ Apply(e, ConnErr([Clr[e] EXCEPT !.errPending = FALSE]), Act("ConnError", e, "", ""))
     /\ Spend(FALSE)
-    /\ UNCHANGED <<failBudget, userDone, approvedPending, cancelled, userClosed, faults>>
+    /\ UNCHANGED <<failBudget, userDone, approvedPending, approvedAny, cancelled, userClosed, faults>>
 
 LocalClose(e, safe) ==
     /\ EnvClose /\ HostileOK /\ Alive(E[e]) /\ ~E[e].once /\ E[e].ran
     /\ Apply(e, CloseConn(Clr[e], safe, IF safe THEN "4500" ELSE "4001"), Act("Close", e, B(safe), ""))
     /\ Spend(TRUE) /\ userClosed' = TRUE
-    /\ UNCHANGED <<failBudget, userDone, approvedPending, cancelled, faults>>
+    /\ UNCHANGED <<failBudget, userDone, approvedPending, approvedAny, cancelled, faults>>
 
 \* real time passes: every delayed goroutine (500 ms ones first) runs
 \* (also a check point once a transport is closed: nothing may be left undone then)
@@ -539,20 +542,20 @@ Sleep ==
     /\ E' = [x \in Endpoints |-> SleepRec(Clr[x])]
     /\ net' = net /\ lastAct' = Act("Sleep", "", "", "")
     /\ Spend(FALSE)
-    /\ UNCHANGED <<failBudget, userDone, approvedPending, cancelled, userClosed, faults>>
+    /\ UNCHANGED <<failBudget, userDone, approvedPending, approvedAny, cancelled, userClosed, faults>>
 
 ArmWriteFailure(e, k) ==
     /\ HostileOK /\ Alive(E[e]) /\ failBudget > 0 /\ E[e].failAt = 0 /\ E[e].wsOpen
     /\ Apply(e, [Clr[e] EXCEPT !.failAt = k], Act("ArmWriteFailure", e, ToString(k), ""))
     /\ failBudget' = failBudget - 1 /\ Spend(TRUE) /\ faults' = TRUE
-    /\ UNCHANGED <<userDone, approvedPending, cancelled, userClosed>>
+    /\ UNCHANGED <<userDone, approvedPending, approvedAny, cancelled, userClosed>>
 
 SetAllowWait(e, b) ==
     /\ HostileOK /\ Alive(E[e]) /\ E[e].role = "server" /\ E[e].allowWait # b /\ ~E[e].paired
     /\ E[e].st \in {"InitStart", "ServerWait", "PendingListen"}
     /\ Apply(e, [Clr[e] EXCEPT !.allowWait = b], Act("SetAllowWait", e, B(b), ""))
     /\ Spend(TRUE)
-    /\ UNCHANGED <<failBudget, userDone, approvedPending, cancelled, userClosed, faults>>
+    /\ UNCHANGED <<failBudget, userDone, approvedPending, approvedAny, cancelled, userClosed, faults>>
 
 \* the application writes a SPINE datagram through the writer it got at setup
 WriteSpine(e) ==
@@ -562,13 +565,13 @@ WriteSpine(e) ==
            s == SendR(r, MData(e \o ToString(r.dataSent)))
        IN  Apply(e, s.r, Act("WriteSpine", e, "", e \o ToString(r.dataSent)))
     /\ Spend(E[e].st # "Complete")
-    /\ UNCHANGED <<failBudget, userDone, approvedPending, cancelled, userClosed, faults>>
+    /\ UNCHANGED <<failBudget, userDone, approvedPending, approvedAny, cancelled, userClosed, faults>>
 
 \* -simulate only: keeps a behaviour alive up to SimDepth
 Nop == /\ GenMode = "sim"
        /\ E' = Clr /\ net' = net /\ lastAct' = Act("Nop", "", "", "")
        /\ Spend(FALSE)
-       /\ UNCHANGED <<failBudget, userDone, approvedPending, cancelled, userClosed, faults>>
+       /\ UNCHANGED <<failBudget, userDone, approvedPending, approvedAny, cancelled, userClosed, faults>>
 
 (*************************** judging the step with the shared formulas ***********)
 ObOf(r) == [st |-> r.st, tRun |-> r.tRun, wsOpen |-> r.wsOpen, ev |-> r.ev, panicked |-> r.panicked, hung |-> r.deadlocked]
@@ -596,7 +599,7 @@ Last == [x |-> [e \in Endpoints |-> Expect(E'[e])], n |-> [e \in Endpoints |-> L
 
 Init == /\ E = [e \in Endpoints |-> InitRec(e)]
         /\ net = [e \in Endpoints |-> <<>>]
-        /\ failBudget = MaxFail /\ userDone = FALSE /\ approvedPending = FALSE /\ cancelled = FALSE
+        /\ failBudget = MaxFail /\ userDone = FALSE /\ approvedPending = FALSE /\ approvedAny = FALSE /\ cancelled = FALSE
         /\ userClosed = FALSE /\ faults = FALSE
         /\ hb = HostileBudget /\ sleeps = 0
         /\ acc = [e \in Endpoints |-> Acc0(RoleOf[e], Paired0[e] \/ Auto0[e])]
@@ -628,7 +631,7 @@ EmitViol  == viol' = {} \/ PrintT(<<"MVIOL", ToJson([v |-> viol', act |-> lastAc
 
 (*************************** view: state identity without the step outputs *******)
 RView(r) == [r EXCEPT !.ev = <<>>, !.outbox = <<>>]
-View == <<[e \in Endpoints |-> RView(E[e])], net, failBudget, userDone, approvedPending, cancelled, userClosed, faults, hb, sleeps, acc, viol>>
+View == <<[e \in Endpoints |-> RView(E[e])], net, failBudget, userDone, approvedPending, approvedAny, cancelled, userClosed, faults, hb, sleeps, acc, viol>>
 
 (*************************** properties ********************************************)
 \* every violation key the shared formulas produce on the model is a known finding
@@ -650,7 +653,8 @@ Quiescent == /\ \A e \in Endpoints : Alive(E[e]) => (net[e] = <<>> \/ ~E[e].wsOp
 PairOb(e) == [st |-> E[e].st, wsOpen |-> E[e].wsOpen, nSetup |-> acc[e].nSetup, idOk |-> E[e].idOk]
 TrustGiven == ~cancelled /\ \E e \in Endpoints : E[e].role = "server" /\ (Paired0[e] \/ Auto0[e] \/ approvedPending)
 IdsCompatible == \A e \in Endpoints : Stored0[e] = "none" \/ Stored0[e] = MyId[Peer(e)]
-PairQ == [timely |-> TimelyMode, trustGiven |-> TrustGiven, idsCompatible |-> IdsCompatible,
+TrustAny == \E e \in Endpoints : E[e].role = "server" /\ (Paired0[e] \/ Auto0[e] \/ approvedAny)
+PairQ == [timely |-> TimelyMode, trustGiven |-> TrustGiven, trustAny |-> TrustAny, idsCompatible |-> IdsCompatible,
           faultFree |-> ~faults, userClosed |-> userClosed]
 PairViol == IF Pair /\ Quiescent THEN JudgePair(PairOb("c"), PairOb("s"), PairQ) ELSE {}
 \* known finding C03/approve-before-hello: the user approved while the client's hello was still in flight
